@@ -28,7 +28,8 @@ ASSUMPTIONS = [
     'for arbitrary (non-trace) address sets only termination and tiling are judged, not containment in code blocks being meaningful code',
 ]
 
-TEXT_CHARS = ['', '', 'abcdefghijklmnopqrstuvwxyzABCDEFGHIJKLMNOPQRSTUVWXYZ ', '0123456789ABCDEF$']
+TEXT_CHARS = ['', '', 'abcdefghijklmnopqrstuvwxyzABCDEFGHIJKLMNOPQRSTUVWXYZ ', '0123456789ABCDEF$',
+              'abcdefghijklmnopqrstuvwxyz \xe9\xc9\xc3\x18']      # incl. characters whose codes are terminal opcodes (JP (HL), RET, JP, JR)
 
 
 @st.composite
@@ -42,7 +43,7 @@ def cases(draw, tier):
         'rstcfg': draw(st.sampled_from(['8:B', '8:B,16:W', '8:B,16:W,40:B,56:W'])),
         'hexfmt': draw(st.sampled_from(['', '', '-h', '-l'])),
         'text_chars': draw(st.sampled_from(TEXT_CHARS)),
-        'tmlc': draw(st.sampled_from([None, None, 3, 12])),
+        'tmlc': draw(st.sampled_from([None, None, 1, 2, 3, 12])),
         'tmld': draw(st.sampled_from([None, None, 1, 3, 8])),
         'dictionary': draw(st.sampled_from([None, None, None, ['the', 'and'], ['zz']])),
         'map': None,
@@ -214,7 +215,7 @@ def oracle(case, rec=None):
         bad = [w for w in r.warnings() if 'overlaps' in w or 'Two instructions' in w]
         if bad:
             sig = 'overlap-warning'
-            m = re.search(r'Instruction at (\$?[0-9A-Fa-f]+) overlaps', bad[0])
+            m = re.search(r'Instruction at (\$?[0-9A-Fa-f]+) overlaps', bad[0]) or re.search(r"directive at (\d+)/\$[0-9A-Fa-f]+ overlaps '[a-z]' directive", bad[0])
             if m and not mp:
                 x = _addr(m.group(1)) if m.group(1)[0] == '$' else int(m.group(1))
                 idx = max(i for i, (c, a) in enumerate(blocks) if a <= x)
